@@ -208,7 +208,19 @@ def oracle(tn, cfg):
         return dict(what='C06: ' + what, input=L.describe(cfg), **kw)
     try:
         o = L.run_impl(tn, cfg)
-    except L.TooLong:
+    except L.TooLong as ex:
+        o = ex.partial
+        if o is not None and cfg['cache'] is not None and 'm' in o['info']:
+            # the run was cut inside a request: every earlier request was served; name the exact clause if it is broken
+            reqs, info = o['rec']['requests'], o['info']
+            for cut in (len(reqs), len(reqs) - 1):
+                tot = sum(len(r) for r in reqs[:cut])
+                if info['m'] + info['m_cache'] == tot:
+                    break
+            else:
+                return fail('info[m] + info[m_cache] differs from the total number of requested indices (batches served '
+                            'entirely from the cache included); the conv rule can then never fire and the run did not stop',
+                            got=[info['m'], info['m_cache']], expected=sum(len(r) for r in reqs))
         return fail('run did not stop: more than 4000 objective calls / 6000 requests / 60 s although a criterion '
                     '(nswp, finite budget m, conv with a cache) must fire')
     d, ns = len(cfg['ns']), cfg['ns']
